@@ -18,6 +18,10 @@
  * k-th call of a history uses the row's content rotated by k so that calls of
  * one history do not repeat each other's arguments.  Numbering never depends
  * on what ufw returns.
+ *
+ * Second family (gather lists, see family_seglists below): a running checksum
+ * continued over 1..3 parts of which any may be empty, spelled with a valid or
+ * with a null pointer.
  */
 #include "mc.h"
 
@@ -211,6 +215,174 @@ history_case(const enum fn *hist, int ncalls, enum content ct, int li, int ii)
     mc_end(LENS[li] > 0, LENS[li] > 0 ? first_outcome(hist[0]) : "first-call-empty");
 }
 
+/* ---- gather lists: a running checksum continued over a list of parts ---------
+ *
+ * "checksumming a concatenation equals continuing the checksum of the first
+ * part over the second" -- for every octet sequence, the empty one included.
+ * An absent part of a gather list is spelled either {valid pointer, 0} or
+ * {NULL, 0}; both denote the empty sequence, and continuing over it has to
+ * return the running value.  Every list of 1..3 parts over {data, empty with a
+ * valid pointer, empty with a null pointer} is run through the two continuing
+ * functions, in a forked child like the histories above.
+ *
+ * A child that does not come back from a list with a null part is not judged
+ * (class segments-null-trapped): whether an implementation may form `NULL + 0`
+ * on its way to reading nothing is between it and the sanitizer, not a sentence
+ * of the statement.  A value that comes back has to be the right one. */
+
+enum seg { SG_DATA, SG_EMPTY, SG_NULL, NSG };
+static const char sgletter[NSG] = { 'D', 'E', 'N' };
+#define SEGWORDS 3 /* at most 1 + 2 + 1 words of data in a list of three parts */
+
+struct seglist {
+    enum fn fn;           /* FN_A or FN_W */
+    uint16_t init;
+    int nparts;
+    enum seg kind[3];
+    size_t len[3];        /* words */
+    size_t total;         /* words */
+    uint16_t words[2 * SEGWORDS];
+};
+
+static void
+seg_child(const struct seglist *l, int fd)
+{
+    uint16_t results[3] = { 0, 0, 0 };
+    uint16_t *blk = malloc(2 * l->total); /* exact size; malloc(0) is a valid, fully poisoned block */
+    if (blk == NULL)
+        _exit(3);
+    if (l->total)
+        memcpy(blk, l->words, 2 * l->total);
+    uint16_t reg = l->init;
+    size_t at = 0;
+    for (int k = 0; k < l->nparts; ++k) {
+        const uint16_t *p = l->kind[k] == SG_NULL ? NULL : blk + at;
+        if (l->fn == FN_A)
+            reg = ufw_crc16_arc(reg, p, 2 * l->len[k]);
+        else
+            reg = ufw_crc16_arc_u16(reg, p, l->len[k]);
+        results[k] = reg;
+        at += l->len[k];
+    }
+    free(blk);
+    const ssize_t w = write(fd, results, sizeof results);
+    _exit(w == (ssize_t)sizeof results ? 0 : 3);
+}
+
+static void
+seglist_case(enum fn fn, const enum seg *kind, int nparts, enum content ct, int ii)
+{
+    char letters[4] = { 0, 0, 0, 0 };
+    bool has_null = false, has_empty = false, has_data = false;
+    for (int k = 0; k < nparts; ++k) {
+        letters[k] = sgletter[kind[k]];
+        has_null |= kind[k] == SG_NULL;
+        has_empty |= kind[k] == SG_EMPTY;
+        has_data |= kind[k] == SG_DATA;
+    }
+    if (!mc_case("fresh-process gather-list fn=%s parts=%s (D=data E=empty,valid pointer N=empty,null pointer) content=%s "
+                 "init=%04x",
+                 fnname[fn], letters, ctname[ct], INITS[ii]))
+        return;
+    struct seglist l;
+    memset(&l, 0, sizeof l);
+    l.fn = fn;
+    l.init = INITS[ii];
+    l.nparts = nparts;
+    for (int k = 0; k < nparts; ++k) {
+        l.kind[k] = kind[k];
+        l.len[k] = kind[k] == SG_DATA ? (size_t)(k % 2) + 1u : 0u;
+        l.total += l.len[k];
+    }
+    fill_words(l.words, l.total, ct, 0);
+    int pfd[2];
+    if (pipe(pfd) != 0)
+        mc_broken("pipe failed");
+    fflush(NULL);
+    const pid_t pid = fork();
+    if (pid < 0)
+        mc_broken("fork failed");
+    if (pid == 0) {
+        close(pfd[0]);
+        seg_child(&l, pfd[1]);
+    }
+    close(pfd[1]);
+    uint16_t results[3] = { 0, 0, 0 };
+    size_t have = 0;
+    while (have < sizeof results) {
+        const ssize_t r = read(pfd[0], (unsigned char *)results + have, sizeof results - have);
+        if (r < 0 && errno == EINTR)
+            continue;
+        if (r <= 0)
+            break;
+        have += (size_t)r;
+    }
+    close(pfd[0]);
+    int status = 0;
+    while (waitpid(pid, &status, 0) < 0)
+        if (errno != EINTR)
+            mc_broken("waitpid failed");
+    mc_trans(nparts);
+    const char *outcome = has_null ? "segments-with-null" : has_empty ? "segments-with-empty" : "segments-data-only";
+    if (have != sizeof results || !WIFEXITED(status) || WEXITSTATUS(status) != 0) {
+        if (WIFEXITED(status) && WEXITSTATUS(status) == 3)
+            mc_broken("child could not allocate or report");
+        mc_log("child did not return: %s %d", WIFSIGNALED(status) ? "killed by signal" : "left with status",
+               WIFSIGNALED(status) ? WTERMSIG(status) : WEXITSTATUS(status));
+        if (has_null)
+            outcome = "segments-null-trapped";
+        else
+            mc_fail("C16/fresh-process-is-crc16-arc", "gather list %s through %s in a fresh process did not return: child %s %d",
+                    letters, fnname[fn], WIFSIGNALED(status) ? "killed by signal" : "left with status",
+                    WIFSIGNALED(status) ? WTERMSIG(status) : WEXITSTATUS(status));
+    } else {
+        unsigned char img[4 * SEGWORDS + 1];
+        memcpy(img, l.words, 2 * l.total);
+        size_t at = 0;
+        uint16_t before = l.init;
+        for (int k = 0; k < nparts; ++k) {
+            at += l.len[k];
+            const uint16_t want = ref_buf(l.init, img, 2 * at);
+            mc_log("part %d (%c, %zu words): running value %04x -> %04x, reference %04x", k + 1, letters[k], l.len[k], before,
+                   results[k], want);
+            if (results[k] != want) {
+                mc_fail("C16/concatenation-continues",
+                        "gather list %s through %s from 0x%04x: after part %d (%s, %zu octets) the running value 0x%04x became "
+                        "0x%04x, CRC-16/ARC of the %zu octets so far is 0x%04x",
+                        letters, fnname[fn], l.init, k + 1,
+                        kind[k] == SG_DATA ? "data" : kind[k] == SG_EMPTY ? "empty, valid pointer" : "empty, null pointer",
+                        2 * l.len[k], before, results[k], 2 * at, want);
+                break;
+            }
+            before = results[k];
+        }
+    }
+    mc_end(has_data, outcome);
+}
+
+static void
+family_seglists(void)
+{
+    static const enum fn fns[2] = { FN_A, FN_W };
+    for (int nparts = 1; nparts <= 3; ++nparts) {
+        int total = 1;
+        for (int k = 0; k < nparts; ++k)
+            total *= NSG;
+        for (int h = 0; h < total; ++h) {
+            enum seg kind[3] = { SG_DATA, SG_DATA, SG_DATA };
+            int x = h;
+            for (int k = nparts - 1; k >= 0; --k) {
+                kind[k] = (enum seg)(x % NSG);
+                x /= NSG;
+            }
+            for (int fi = 0; fi < 2; ++fi)
+                for (int ct = 0; ct < 2; ++ct)
+                    for (int ii = 0; ii < NINITS; ++ii)
+                        seglist_case(fns[fi], kind, nparts, (enum content)ct, ii);
+        }
+    }
+}
+
 int
 main(int argc, char **argv)
 {
@@ -233,7 +405,10 @@ main(int argc, char **argv)
                         history_case(hist, ncalls, (enum content)ct, li, ii);
         }
     }
+    family_seglists();
     mc_finish(true, "all 84 histories of 1..3 calls over the 4 entry points, each in a freshly forked process that has "
-                    "made no checksum call before; x 3 contents x word counts {0,1,2,7,9} x 3 initial values");
+                    "made no checksum call before; x 3 contents x word counts {0,1,2,7,9} x 3 initial values; all 39 gather "
+                    "lists of 1..3 parts over {data, empty with a valid pointer, empty with a null pointer} continued through "
+                    "ufw_crc16_arc and ufw_crc16_arc_u16 x 2 contents x 3 initial values");
     return 0;
 }
